@@ -106,6 +106,7 @@ end
 
 def renderDecl : Decl → Bytes
   | .type n t => str "type " ++ n ++ str " " ++ renderTy t ++ [10]
+  | .alias n t => str "alias " ++ n ++ str " " ++ renderTy t ++ [10]
   | .iface n ms => str "iface " ++ n ++ [10] ++
       (ms.map fun m => str " m " ++ m.name ++ str " (" ++ renderFields m.params ++ str ") (" ++ renderFields m.results ++ str ")" ++ [10]).flatten
   | .func f =>
